@@ -31,6 +31,9 @@ def check(repo: Repo, rep, tier):
     from .C16 import codegen_pure
 
     codegen_pure(repo, rep)
+    from .C18 import changes_fresh
+
+    changes_fresh(repo, rep)
 
 
 def wrapper_frames(repo: Repo, f: Func):
